@@ -232,6 +232,10 @@ fn run<'s, T: Logos<'s> + std::fmt::Debug>(src: &'s T::Source, partial: bool, st
             Some(Ok(t)) => println!("OK {} {} {:?}", sp.start, sp.end, t),
             Some(Err(e)) => println!("ERR {} {} {:?}", sp.start, sp.end, e),
         }
+        // the accessors a user would call next (checked builds panic here when the span is not sliceable)
+        std::hint::black_box(lex.slice());
+        std::hint::black_box(lex.remainder());
+        println!("ACC");
     }
 }
 fn main() {
